@@ -70,6 +70,10 @@ FIRST_MISSED = {
     "C18-5": "own property silent (reported by C12 EXIT and TICK-2) -> C18 shares the TICK rules",
     "C20-5": "no check reported it -> TMO-3: the sample of a first transmission is overwritten unconditionally with this call's time.Now()",
     "C10-7": "no check reported it -> GBNHS-1: every way back to the wait for SYN after the echo sets the restart flag",
+    "C11-7": "no check reported it -> EXCL: the connection handed out by Accept/Dial is the one stored in mailboxConn",
+    "C15-7": "own property silent (reported by C16 RFULL source rule) -> C15 imports C16",
+    "C05-7": "no check reported it -> WIN-3: every slot between base and top is retransmitted (no way round the transmission inside the resend loop)",
+    "C05-8": "own property silent (reported by C15 TRUNC) -> C05 imports C15 and C19; C19 writer: the length prefix is not computed through a narrower integer",
     "C06-3": "no check reported it -> RATELIMIT: once lastResend is refreshed the packets are transmitted",
 }
 
